@@ -62,7 +62,7 @@ Definition rtc_read (c : rtc) (sel : N) : res N :=
   | 11 => Ok (u8 (r_ld c))
   | 12 => Ok (N.land (u8 (shr (r_ld c) 8)) 1
               + (if r_lcarry c then 128 else 0) + (if r_lhalt c then 64 else 0))
-  | _ => Crash CExplicit      (* panic("invalid RTC register") *)
+  | _ => Ok 255               (* 0x0D-0x0F select no clock register *)
   end.
 
 (* func (r *rtc) write(ramBank uint8, value uint8) *)
